@@ -1,37 +1,9 @@
 package eio
 
 import (
-	"net/http"
-	"net/url"
 	"strings"
 
 )
-
-// verifRW is a recording http.ResponseWriter.
-type verifRW struct {
-	status int
-	body   []byte
-	hdr    http.Header
-}
-
-func (w *verifRW) Header() http.Header {
-	if w.hdr == nil {
-		w.hdr = http.Header{}
-	}
-	return w.hdr
-}
-func (w *verifRW) Write(b []byte) (int, error) {
-	if w.status == 0 {
-		w.status = 200
-	}
-	w.body = append(w.body, b...)
-	return len(b), nil
-}
-func (w *verifRW) WriteHeader(code int) {
-	if w.status == 0 {
-		w.status = code
-	}
-}
 
 // verifErrCode extracts the protocol error code of the response: natively from the JSON body, in the executor (where
 // json.Marshal is an opaque stub) from the value that was marshalled.
@@ -49,10 +21,6 @@ func verifErrCode(w *verifRW) int {
 		return -1
 	}
 	return se.Code
-}
-
-func verifReq(method, query string) *http.Request {
-	return &http.Request{Method: method, URL: &url.URL{Path: "/engine.io/", RawQuery: query}, ProtoMajor: 1, ProtoMinor: 1, Header: http.Header{}}
 }
 
 // C17_matrix: the request matrix method x EIO version x transport x sid x b64 against a server holding one live
